@@ -34,6 +34,7 @@ type Profile struct {
 	ReplacePct   int // % of histories over a storage that replaces the userinfo struct it is handed
 	WarmPct      int // % of flows with a wrong-credential attempt right after another client's successful authentication
 	OverlapPct   int // % of flows with a token request that is in flight while another one runs
+	AudPct       int // % of histories whose storage grants an audience other than the client alone
 }
 
 // warmAttack: a client x whose successful authentication precedes the attempt (its credential for
@@ -727,6 +728,9 @@ func (g *gen) do(o Op) Out {
 	if o.Fault != "" {
 		g.tag("fault=" + o.Fault)
 	}
+	if o.Cred.Kind == "basic" && g.r.Chance(1, 3) {
+		o.BasicEnc = "pct"
+	}
 	out := g.w.Exec(o)
 	g.h.Ops = append(g.h.Ops, o)
 	g.h.Outs = append(g.h.Outs, out)
@@ -1232,6 +1236,10 @@ func Generate(r drv.Rand, p Profile) (*History, error) {
 	o.KeepRT = r.Chance(p.KeepPct, 100)
 	o.NoReqObj = r.Chance(1, 16)
 	o.ReplaceUI = r.Chance(p.ReplacePct, 100)
+	if r.Chance(p.AudPct, 100) {
+		api, files := "https://api.example.com", "https://files.example.com"
+		o.Aud = drv.Pick(r, [][]string{{api}, {api}, {api, files}, {files, api, api}, {api, "web2"}, {"spa", api}, {"WEB2", api}, {}})
+	}
 	o.Loud = r.Chance(p.LoudPct, 100)
 	if r.Chance(p.OtherAuthPct, 100) {
 		o.AuthOther = map[string]string{}
@@ -1282,6 +1290,9 @@ func Generate(r drv.Rand, p Profile) (*History, error) {
 	}
 	if o.ReplaceUI {
 		g.tag("userinfo=replace-struct")
+	}
+	if o.Aud != nil {
+		g.tag(fmt.Sprintf("grant_audience=%d", len(o.Aud)))
 	}
 	for id, m := range o.AuthOther {
 		g.tag("auth_method_other=" + id)
